@@ -156,7 +156,8 @@ def _solo(name, view):
 
 def _job(args):
     """One (granularity, thread-program tuple) exploration, in a pool worker."""
-    gran, names, bound, max_exec = args
+    gran, names, bound, max_exec = args[:4]
+    part = args[4] if len(args) > 4 else None
     from .. import sched
     lib()
     shared()
@@ -186,7 +187,7 @@ def _job(args):
         if gran == "G0":
             r = sched.explore_states(bodies, check, view, max_exec=max_exec, stop_after=25)
         else:
-            r = sched.explore_bounded(bodies, check, bound, view, max_exec=max_exec, stop_after=25)
+            r = sched.explore_bounded(bodies, check, bound, view, max_exec=max_exec, stop_after=25, part=part)
         # replay determinism of the first violating (or the last) schedule
         probe = r["bad"][0][0] if r["bad"] else None
         if probe is not None:
@@ -200,6 +201,7 @@ def _job(args):
             if r1 != r2 or x1.choices != x2.choices:
                 raise HarnessError("schedule replay not deterministic for %r" % (names,))
     r["names"], r["gran"], r["bound"], r["solo"], r["locks_replaced"] = names, gran, bound, solo, nlocks
+    r["part"] = part
     r["info"] = sched.info() if gran == "G0" else dict(mode="G1", instrumented_code_objects=sched.info()["instrumented_code_objects"])
     r["bad"] = r["bad"][:5]
     r["outcomes"] = dict(list(r["outcomes"].items())[:12])
@@ -219,6 +221,9 @@ def run(ctx):
         jobs.append(("G1", names, b, 3000 if ctx.quick else 40000))
     if not ctx.quick:
         jobs.append(("G1", triples[0], 1, 40000))
+    else:
+        # two preemptions (A held inside a pass, B held inside a pass, A goes on to a second pass): one pair, split over 8 workers
+        jobs = [("G1", ("simple", "nested"), 2, 100000, (k, 8)) for k in range(8)] + jobs
     tot = dict(executions=0, transitions=0, states=0, overlapped=0)
     outcomes = 0
     per = []
@@ -230,7 +235,7 @@ def run(ctx):
             outcomes += len(r["outcomes"])
             if r["gran"] == "G0":
                 hot = r["info"]
-            per.append(dict(threads=list(r["names"]), granularity=r["gran"], preemption_bound=r["bound"] if r["gran"] == "G1" else "unbounded",
+            per.append(dict(threads=list(r["names"]) + (["first deviation at point = %d mod %d" % tuple(r["part"])] if r.get("part") else []), granularity=r["gran"], preemption_bound=r["bound"] if r["gran"] == "G1" else "unbounded",
                             executions=r["executions"], states=r.get("states"), transitions=r["transitions"],
                             schedules_with_preemption=r["overlapped"], distinct_outcomes=len(r["outcomes"]), capped=r["capped"],
                             violating=len(r["bad"])))
